@@ -7,7 +7,7 @@ sketch that the library's own invariants do not describe (shift exponents, table
 import json
 import os
 import re
-from astu import C, ctxt, gt_pair, eq_const, strip, strip_all, walk, walkp, txt, short, functions_by, local_decls, always_throws, stmts_of
+from astu import C, ctxt, gt_pair, eq_const, reach, reach_txt, ctext, strip, strip_all, walk, walkp, txt, short, functions_by, local_decls, always_throws, stmts_of
 from vlib.core import ob, VERIF
 import triggers
 
